@@ -241,13 +241,14 @@ where
     let dim = pus(params, "dim");
     let lp: Vec<F> = (0..k).map(|_| gen_entry::<F>(&mut g, specials, dyadic)).collect();
     let lq: Vec<Vec<F>> = (0..k).map(|_| (0..k).map(|_| gen_entry::<F>(&mut g, specials, dyadic)).collect()).collect();
-    let mk = |i: usize, sp: u64| -> Vec<S> {
+    let mk_n = |i: usize, sp: u64, n: usize| -> Vec<S> {
         let mut v = vec![S::of_idx(i)];
-        for d in 1..dim {
+        for d in 1..n {
             v.push(S::special(sp + d as u64));
         }
         v
     };
+    let mk = |i: usize, sp: u64| -> Vec<S> { mk_n(i, sp, dim) };
     let target = ScriptTarget { lp: lp.clone() };
     let proposal = ScriptProposal::<S, F> { lq: lq.clone(), next: mk(0, 0), calls: 0 };
     let mut chain = MHMarkovChain::new(target, proposal, mk(0, 0));
@@ -258,7 +259,14 @@ where
         let y = g.usize(0, k - 1);
         let (spx, spy) = (g.u64(), g.u64());
         let xs = mk(x, spx);
-        let ys = mk(y, spy);
+        // 1 step in 5: the candidate has another number of coordinates than the current state (a state is a
+        // Vec; "ends at y" means at y, whatever its length)
+        let ys = if g.bool(1, 5) {
+            o.count("probe_candidate_of_another_length", 1);
+            mk_n(y, spy, g.usize(1, dim + 2))
+        } else {
+            mk(y, spy)
+        };
         let (px, py, qxy, qyx) = (lp[x], lp[y], lq[y][x], lq[x][y]);
         let ratio = (py + qxy) - (px + qyx);
         // choose the raw word of the acceptance draw
